@@ -24,8 +24,8 @@ if [ ! -f $OUT/demo.cpp ] && [ -f $OUT/demo.sh ]; then
   # script demos locate the tree from their own position (<tree>/MUTANT/demo.sh): run a copy inside a clean export and inside the mutated worktree
   OR=/tmp/keep_orig_$$; rm -rf $OR; mkdir -p $OR; git -C /repo archive HEAD | tar -x -C $OR; mkdir -p $OR/MUTANT $WT/MUTANT
   cp $SRC/* $OR/MUTANT/ 2>/dev/null; cp $SRC/* $WT/MUTANT/ 2>/dev/null
-  ( cd $OR/MUTANT && timeout 1200 bash ./demo.sh >/tmp/keep_o_$$.log 2>&1 ); DEMO_ORIG=$?
-  ( cd $WT/MUTANT && timeout 1200 bash ./demo.sh >/tmp/keep_m_$$.log 2>&1 ); DEMO_MUT=$?
+  ( cd $OR/MUTANT && ROOT=$OR timeout 1200 bash ./demo.sh >/tmp/keep_o_$$.log 2>&1 ); DEMO_ORIG=$?
+  ( cd $WT/MUTANT && ROOT=$WT timeout 1200 bash ./demo.sh >/tmp/keep_m_$$.log 2>&1 ); DEMO_MUT=$?
   rm -rf $OR $WT/MUTANT
 fi
 ( cd $WT && cmake -S . -B _build -G Ninja -DBUILD_TESTS=ON -DCMAKE_BUILD_TYPE=RelWithDebInfo -DCMAKE_PREFIX_PATH=/root/miniconda -DCMAKE_CXX_FLAGS=-Wno-error >/dev/null 2>&1 && cmake --build _build -j6 >/dev/null 2>&1; ctest --test-dir _build -j8 --timeout 900 2>&1 | grep -E "tests passed|tests failed" ) > /tmp/keep_ut_$$.log 2>&1
